@@ -139,9 +139,23 @@ func c17XML(doc string) (string, bool) { return c17XMLw(doc, false) }
 func c17XMLw(doc string, wsNorm bool) (string, bool) {
 	d := stdxml.NewDecoder(strings.NewReader(doc))
 	var sb strings.Builder
+	var text []byte // character data is one run until the next tag (comments and CDATA boundaries do not split it)
+	flush := func() {
+		if wsNorm {
+			if t := strings.TrimRight(c17Ws(string(text)), " "); t != "" {
+				sb.WriteString("T:" + t + "|")
+			}
+		} else if len(text) > 0 {
+			sb.WriteString("T:")
+			sb.Write(text)
+			sb.WriteByte('|')
+		}
+		text = text[:0]
+	}
 	for {
 		t, err := d.Token()
 		if err == io.EOF {
+			flush()
 			return sb.String(), true
 		}
 		if err != nil {
@@ -149,18 +163,11 @@ func c17XMLw(doc string, wsNorm bool) (string, bool) {
 		}
 		switch v := t.(type) {
 		case stdxml.CharData:
-			if wsNorm {
-				t := strings.TrimRight(c17Ws(string(v)), " ")
-				if t == "" {
-					continue
-				}
-				sb.WriteString("T:" + t + "|")
-			} else {
-				sb.WriteString("T:")
-				sb.Write(v)
-				sb.WriteByte('|')
-			}
+			text = append(text, v...)
+		case stdxml.EndElement:
+			flush()
 		case stdxml.StartElement:
+			flush()
 			sb.WriteString("<" + v.Name.Local)
 			for _, a := range v.Attr {
 				sb.WriteString(" " + a.Name.Local + "=" + strconv.Quote(a.Value))
@@ -985,50 +992,73 @@ func c17Contexts(c *Ctx, d *c17Dump, x *c17M) error {
 			xrefs[fmt.Sprintf("&#x%X;", b)] = true
 		}
 	}
-	xpre := []string{"", "x", "&amp;", "&lt;", "&#38;", "&#x26;", "&amp;amp;", "&amp;#"}
+	// prefixes with `<` only make sense in character data: pieces that end in `]` before a reference to `>`
+	// (comments are removed, CDATA sections become text) must not complete `]]>`
+	xpre := []string{"", "x", "&amp;", "&lt;", "&#38;", "&#x26;", "&amp;amp;", "&amp;#", "]]", "x]<!--c-->]", "x]<!--c-->]<!--c-->", "<![CDATA[x]]]><![CDATA[]]]>", "]<!--c-->]<!--c-->]<!--c-->"}
 	xsuf := []string{"", "y", ";", "60;", "x3C;", "lt;", "amp;", "#60;", "abc", "=", "&#59;", "&#35;60;", "&amp;"}
+	// where the reference is placed: {media type, attribute?, before, after}
+	type xwrap struct {
+		mt          string
+		attr        bool
+		before, aft string
+	}
+	wraps := []xwrap{
+		{"text/xml", false, "<a>", "</a>"},
+		{"text/xml", true, "<a b=\"", "\">k</a>"},
+		{"text/xml", true, "<a b='", "'/>"},
+		{"image/svg+xml", false, "<svg><text>", "</text></svg>"},
+		{"image/svg+xml", true, "<svg><text id=\"", "\">k</text></svg>"},
+		// regions the svg minifier treats specially: foreignObject content is written verbatim, title/desc are kept,
+		// defs content and unknown attributes
+		{"image/svg+xml", true, "<svg><foreignObject><p title=\"", "\">k</p></foreignObject></svg>"},
+		{"image/svg+xml", true, "<svg><foreignObject><p class='", "'>k</p><b>i</b></foreignObject><g/></svg>"},
+		{"image/svg+xml", false, "<svg><foreignObject><p>", "</p></foreignObject></svg>"},
+		{"image/svg+xml", true, "<svg><defs><g id=\"", "\"/></defs><use/></svg>"},
+		{"image/svg+xml", true, "<svg><g data-q=\"", "\" fill=\"red\"><path d=\"M0 0\"/></g></svg>"},
+		{"image/svg+xml", true, "<svg><title id=\"", "\">t</title></svg>"},
+		{"image/svg+xml", false, "<svg><desc>", "</desc></svg>"},
+		{"image/svg+xml", false, "<svg><title>", "</title><g/></svg>"},
+	}
+	wsRef := map[string]bool{"&#9;": true, "&#10;": true, "&#13;": true, "&#x9;": true, "&#xA;": true, "&#xD;": true}
 	for _, ref := range c17Sorted(xrefs) {
 		for _, p := range xpre {
 			for _, sf := range xsuf {
-				for _, mt := range []string{"text/xml", "image/svg+xml"} {
-					for _, attr := range []bool{false, true} {
-						var in string
-						body := p + ref + sf
-						switch {
-						case mt == "text/xml" && attr:
-							in = "<a b=\"" + body + "\">k</a>"
-						case mt == "text/xml":
-							in = "<a>" + body + "</a>"
-						case attr:
-							in = "<svg><text id=\"" + body + "\">k</text></svg>"
-						default:
-							in = "<svg><text>" + body + "</text></svg>"
-						}
-						a, aok := c17XMLw(in, true)
-						if !aok {
-							continue
-						}
-						var out string
-						var err error
-						var crash string
-						if cr := h.Safely(10*time.Second, func() { out, err, crash = x.run(mt, in) }); cr != "" {
-							crash = cr
-						}
-						st.Count(mt+" "+in, out != in)
-						st.Tag("xml")
-						if crash != "" {
-							c.R.Add(h.Finding{Stage: st.Name, Kind: "crash", What: mt + ": " + crash, Input: strconv.Quote(in)})
-							continue
-						}
-						if err != nil {
-							c.R.Add(h.Finding{Stage: st.Name, Kind: "fail", What: mt + ": minifier returns an error on a well-formed document", Input: strconv.Quote(in), Impl: err.Error()})
-							continue
-						}
-						b, bok := c17XMLw(out, true)
-						if !bok || a != b {
-							c.R.Add(h.Finding{Stage: st.Name, Kind: "fail", What: mt + ": reference " + ref + " decodes to different text after minification (in context, encoding/xml)",
-								Input: strconv.Quote(in), Impl: strconv.Quote(out), Model: a + " → " + b})
-						}
+				for _, wr := range wraps {
+					if wr.attr && strings.ContainsAny(p, "<]") {
+						continue // `]]>` is only forbidden in character data (encoding/xml rejects it in attribute values too)
+					}
+					if wsRef[ref] && wr.mt == "image/svg+xml" && !wr.attr && strings.Contains(p, "<") {
+						// the svg minifier trims every text node, also next to a removed comment (open known finding of
+						// C05: "character data is trimmed per text node"): not a matter of the tables
+						c.R.ExcludedKnown++
+						continue
+					}
+					mt := wr.mt
+					in := wr.before + p + ref + sf + wr.aft
+					a, aok := c17XMLw(in, true)
+					if !aok {
+						continue
+					}
+					var out string
+					var err error
+					var crash string
+					if cr := h.Safely(10*time.Second, func() { out, err, crash = x.run(mt, in) }); cr != "" {
+						crash = cr
+					}
+					st.Count(mt+" "+in, out != in)
+					st.Tag("xml")
+					if crash != "" {
+						c.R.Add(h.Finding{Stage: st.Name, Kind: "crash", What: mt + ": " + crash, Input: strconv.Quote(in)})
+						continue
+					}
+					if err != nil {
+						c.R.Add(h.Finding{Stage: st.Name, Kind: "fail", What: mt + ": minifier returns an error on a well-formed document", Input: strconv.Quote(in), Impl: err.Error()})
+						continue
+					}
+					b, bok := c17XMLw(out, true)
+					if !bok || a != b {
+						c.R.Add(h.Finding{Stage: st.Name, Kind: "fail", What: mt + ": reference " + ref + " decodes to different text after minification (in context, encoding/xml)",
+							Input: strconv.Quote(in), Impl: strconv.Quote(out), Model: a + " → " + b + map[bool]string{true: "", false: " (output not well-formed)"}[bok]})
 					}
 				}
 			}
@@ -1036,6 +1066,127 @@ func c17Contexts(c *Ctx, d *c17Dump, x *c17M) error {
 	}
 	st.End()
 	return nil
+}
+
+// ---------- stage: white space at element boundaries ----------
+
+// c17Visible is a small rendering model: the text a reader sees, with `■` for an inline replaced element
+// (svg, math, img, input, …), a line break at every boundary of an element next to which white space is
+// insignificant (the class `wsInsignificant` of Spec/HtmlTraits.lean), white space collapsed and dropped next to line breaks.
+func c17Visible(doc string, wsInsig map[string]bool) (string, bool) {
+	n, err := xhtml.Parse(strings.NewReader(doc))
+	if err != nil {
+		return "", false
+	}
+	var sb strings.Builder
+	var walk func(*xhtml.Node)
+	walk = func(n *xhtml.Node) {
+		switch n.Type {
+		case xhtml.TextNode:
+			sb.WriteString(n.Data)
+			return
+		case xhtml.ElementNode:
+			switch n.Data {
+			case "svg", "math", "img", "input", "button", "select", "textarea", "object", "embed", "video", "audio", "canvas", "iframe", "meter", "progress":
+				sb.WriteString("■")
+				return
+			case "script", "style", "title", "head", "template":
+				return
+			}
+			if wsInsig[n.Data] {
+				sb.WriteByte('\n')
+			}
+		}
+		for c := n.FirstChild; c != nil; c = c.NextSibling {
+			walk(c)
+		}
+		if n.Type == xhtml.ElementNode && wsInsig[n.Data] {
+			sb.WriteByte('\n')
+		}
+	}
+	walk(n)
+	// collapse: runs of white space containing a line break → one line break, others → one space
+	var out strings.Builder
+	pend := byte(0)
+	for _, r := range sb.String() {
+		if r == '\n' {
+			pend = '\n'
+			continue
+		}
+		if r == ' ' || r == '\t' || r == '\r' || r == '\f' {
+			if pend == 0 {
+				pend = ' '
+			}
+			continue
+		}
+		if pend != 0 && out.Len() > 0 {
+			out.WriteByte(pend)
+		}
+		pend = 0
+		out.WriteRune(r)
+	}
+	return out.String(), true
+}
+
+func c17WsBoundary(c *Ctx, d *c17Dump, x *c17M) {
+	st := c.R.StartStage("ws-boundary", "white space between a word and an inline element that is NOT in tagMap (inline <svg>, <math>: delivered as one token) or that has no blockTag (span, img, input, comment+word), preceded by every tag of html/hash.go as start tag and as end tag and by every attribute of attrMap, with 0‥9 filler tokens in front so that the element lands in every slot of the 8-slot look-ahead buffer; judged by the visible text (x/net/html + the rendering classes of Spec/HtmlTraits): the space may only disappear next to an element whose boundary makes it insignificant; non-trivial = the minifier rewrote the input")
+	st.Exhaustive = true
+	ws := d.class["wsInsignificant"]
+	inl := []string{"<svg><circle r=\"1\"/></svg>", "<math><mi>y</mi></math>", "<span>s</span>", "<img src=i>", "<!--c-->w", "<input>"}
+	fill := []string{"", "<i>f</i> ", "<i>f</i> <b>g</b> ", "<!--c-->", "<i class=a>f</i> ", "<i>f</i> <b>g</b> <u>h</u> ", "<i class=a id=b>f</i> <b>g</b> ", "<i>1</i><i>2</i><i>3</i><i>4</i> ", "<br>", "<i>f</i><!--c--> <b>g</b><!--d--> "}
+	tags := []string{}
+	for _, r := range d.pairs["TagTraits"] {
+		switch r[0] {
+		case "html", "head", "body", "title", "script", "style", "textarea", "iframe", "svg", "math", "plaintext", "xmp", "noscript", "noembed", "noframes", "template", "select", "option", "optgroup", "frameset", "frame", "pre":
+			continue // change the insertion mode / raw text / white-space mode: C03's documents
+		case "table", "caption", "colgroup", "col", "thead", "tbody", "tfoot", "tr", "td", "th":
+			continue // foster parenting moves the probe out of the table: C03's documents
+		}
+		tags = append(tags, r[0])
+	}
+	attrs := []string{}
+	for _, r := range d.pairs["AttrTraits"] {
+		if r[0] != "style" {
+			attrs = append(attrs, r[0])
+		}
+	}
+	one := func(in, what string) {
+		var out string
+		var err error
+		var crash string
+		if cr := h.Safely(10*time.Second, func() { out, err, crash = x.run("text/html", in) }); cr != "" {
+			crash = cr
+		}
+		st.Count(in, out != in)
+		if crash != "" {
+			c.R.Add(h.Finding{Stage: st.Name, Kind: "crash", What: "html.Minify: " + crash, Input: strconv.Quote(in)})
+			return
+		}
+		if err != nil {
+			c.R.Add(h.Finding{Stage: st.Name, Kind: "fail", What: "html.Minify returns an error", Input: strconv.Quote(in), Impl: err.Error()})
+			return
+		}
+		vi, iok := c17Visible(in, ws)
+		vo, ook := c17Visible(out, ws)
+		if !iok || !ook || vi != vo {
+			c.R.Add(h.Finding{Stage: st.Name, Kind: "fail", What: what + ": rendered white space next to an inline element is lost or added", Input: strconv.Quote(in), Impl: strconv.Quote(out), Model: fmt.Sprintf("visible text before %q, after %q", vi, vo)})
+		}
+	}
+	for _, e := range inl {
+		for _, f := range fill {
+			for _, t := range tags {
+				st.Tag("after tag")
+				one("<div>"+f+"<"+t+">see "+e+" here</"+t+"></div>", "white space after <"+t+">")
+				one("<div>"+f+"<"+t+">x</"+t+">see "+e+" here</div>", "white space after </"+t+">")
+			}
+			for _, a := range attrs {
+				st.Tag("after attribute")
+				one("<div>"+f+"<span "+a+"=x>see "+e+" here</span></div>", "white space after attribute "+a)
+				one("<div>"+f+"<span id=y "+a+"=x>see "+e+" here</span></div>", "white space after attribute "+a)
+			}
+		}
+	}
+	st.End()
 }
 
 // ---------- stage: XML entities ----------
@@ -1528,6 +1679,7 @@ func runC17(c *Ctx) error {
 	if err := c17Contexts(c, d, x); err != nil {
 		return err
 	}
+	c17WsBoundary(c, d, x)
 	c17XMLEntities(c, d, x)
 	c17Colours(c, d, x)
 	if err := c17SpecStage(c, d); err != nil {
